@@ -109,27 +109,5 @@ def allNonNull (env : Env ν) (row : Row ν) : Expr → Bool
   | .call3 f a b c => allNonNull env row a && allNonNull env row b && allNonNull env row c && nonNull env row (.call3 f a b c)
   | _ => false
 
-/-- every operand of a NOT has a known truth value on this row (it is not UNKNOWN): the evaluator's
-`NOT` is two-valued, so `NOT UNKNOWN` would come out TRUE -/
-def notKnown (env : Env ν) (row : Row ν) : Expr → Bool
-  | .lit _ => true
-  | .str _ => true
-  | .col _ => true
-  | .paren e => notKnown env row e
-  | .neg e => notKnown env row e
-  | .arith _ l r => notKnown env row l && notKnown env row r
-  | .cmp _ l r => notKnown env row l && notKnown env row r
-  | .and l r => notKnown env row l && notKnown env row r
-  | .or l r => notKnown env row l && notKnown env row r
-  | .not e => notKnown env row e && nonNull env row e
-  | .caseS ch => notKnown env row ch
-  | .caseV sc ch => notKnown env row sc && notKnown env row ch
-  | .whenL c r rest => notKnown env row c && notKnown env row r && notKnown env row rest
-  | .elseL e => notKnown env row e
-  | .endL => true
-  | .call1 _ a => notKnown env row a
-  | .call2 _ a b => notKnown env row a && notKnown env row b
-  | .call3 _ a b c => notKnown env row a && notKnown env row b && notKnown env row c
-
 end
 end Ex
